@@ -148,8 +148,60 @@ func (e *FnEnc) assertsAt(b *ssa.BasicBlock, idx int, in ssa.Instruction) {
 // names visible just before instruction idx of block b
 func (e *FnEnc) instrEnv(b *ssa.BasicBlock, idx int) *specEnv {
 	env := e.pointEnv(b, nil, nil)
+	// visited(k) names the iterator of the innermost map-range loop around this point
+	var best *loopInfo
+	for _, lo := range e.loops {
+		if !lo.blocks[b] {
+			continue
+		}
+		if r := e.loopRange(lo); r != nil && (best == nil || len(lo.blocks) < len(best.blocks)) {
+			best = lo
+			env.visRange = r
+		}
+	}
 	outer := env.lookup
 	env.lookup = func(name string) (Val, bool) {
+		// this block up to the point, then the blocks that dominate it (nearest first)
+		type span struct {
+			b  *ssa.BasicBlock
+			hi int
+		}
+		spans := []span{{b, idx - 1}}
+		for d := b.Idom(); d != nil; d = d.Idom() {
+			spans = append(spans, span{d, len(d.Instrs) - 1})
+		}
+		for si, sp := range spans {
+			for i := sp.hi; i >= 0; i-- {
+				dr, ok := sp.b.Instrs[i].(*ssa.DebugRef)
+				if si == 0 || !ok {
+					continue // the point's own block is handled below (it also knows Allocs)
+				}
+				if dr.Object() != nil && dr.Object().Name() == name {
+					if _, isVar := dr.Object().(*types.Var); !isVar {
+						continue
+					}
+					if _, have := e.vals[dr.X]; !have {
+						continue
+					}
+					if dr.IsAddr {
+						return e.deref(e.val(dr.X)), true
+					}
+					return e.val(dr.X), true
+				}
+			}
+			if si == 0 {
+				if v, ok := lookupInBlock(e, b, idx, name); ok {
+					return v, true
+				}
+			}
+		}
+		return outer(name)
+	}
+	return env
+}
+
+func lookupInBlock(e *FnEnc, b *ssa.BasicBlock, idx int, name string) (Val, bool) {
+	{
 		for i := idx - 1; i >= 0; i-- {
 			switch x := b.Instrs[i].(type) {
 			case *ssa.DebugRef:
@@ -171,7 +223,6 @@ func (e *FnEnc) instrEnv(b *ssa.BasicBlock, idx int) *specEnv {
 				}
 			}
 		}
-		return outer(name)
 	}
-	return env
+	return Val{}, false
 }
